@@ -1,5 +1,190 @@
-"""R13.4 (omission vs. implied end/start in the parser) -- filled in with the dispatcher model."""
+"""R13.4 (also C07.1): every omission the optional-tags filter allows is re-implied by the parser.
+
+(a) `</T>` omitted before a start tag `<N>`: the handler for N in the phase where T is the current node closes T
+(b) `</p>` omitted before an end tag `</X>` (X an element whose content model admits p): the end-tag handler of X
+    generates implied end tags (closing the p) rather than tripping over the open p
+(c) an omitted start tag (head, body, colgroup, tbody) is implied by the handler of the next element's start tag
+"""
+from __future__ import annotations
+
+import ast
+
+from ..repo import AnalysisError, norm, walk_no_nested
+from ..parsermodel import PARSER_REL, ANY, NONAME
+from ..partition import FRESH
+from .c03 import model, graph
+
+# element whose end tag is omitted -> (phase in which it is the current node, functions that close it)
+CLOSERS = {
+    "p": (["inBody"], {"InBodyPhase.endTagP"}),
+    "li": (["inBody"], {"InBodyPhase.endTagListItem"}),
+    "dd": (["inBody"], {"InBodyPhase.endTagListItem"}),
+    "dt": (["inBody"], {"InBodyPhase.endTagListItem"}),
+    "rt": (["inBody"], {"TreeBuilder.generateImpliedEndTags"}),
+    "rp": (["inBody"], {"TreeBuilder.generateImpliedEndTags"}),
+    "option": (["inSelect", "inBody"], {"InSelectPhase.startTagOption", "InSelectPhase.startTagOptgroup", "InBodyPhase.endTagOther"}),
+    "optgroup": (["inSelect"], {"InSelectPhase.startTagOptgroup"}),
+    "thead": (["inTableBody"], {"InTableBodyPhase.endTagTableRowGroup"}),
+    "tbody": (["inTableBody"], {"InTableBodyPhase.endTagTableRowGroup"}),
+    "tfoot": (["inTableBody"], {"InTableBodyPhase.endTagTableRowGroup"}),
+    "tr": (["inRow"], {"InRowPhase.endTagTr"}),
+    "td": (["inCell"], {"InCellPhase.endTagTableCell"}),
+    "th": (["inCell"], {"InCellPhase.endTagTableCell"}),
+}
+
+# elements whose content model admits a p child (flow containers and transparent elements), with the phase in which
+# their end tag is seen while the p is open
+CAN_CONTAIN_P = {
+    "address": "inBody", "article": "inBody", "aside": "inBody", "blockquote": "inBody", "details": "inBody",
+    "dialog": "inBody", "div": "inBody", "fieldset": "inBody", "figcaption": "inBody", "figure": "inBody",
+    "footer": "inBody", "header": "inBody", "main": "inBody", "nav": "inBody", "section": "inBody", "form": "inBody",
+    "li": "inBody", "dd": "inBody", "dt": "inBody", "object": "inBody", "caption": "inCaption", "td": "inCell", "th": "inCell",
+    "a": "inBody", "ins": "inBody", "del": "inBody", "map": "inBody", "audio": "inBody", "video": "inBody",
+    "canvas": "inBody", "noscript": "inBody",
+}
+
+# next-element names that cannot conformingly be the first child of body (no finding is claimed for them)
+BODY_FIRST_CHILD_NONCONFORMING = {"base", "basefont", "bgsound", "noframes", "title", "head", "frameset", "body", "html",
+                                  "command"}
+
+
+def _reach(edges, roots):
+    seen, work = set(roots), list(roots)
+    while work:
+        k = work.pop()
+        for m in edges.get(k, ()):
+            if m not in seen:
+                seen.add(m)
+                work.append(m)
+    return seen
 
 
 def run(ctx):
-    return
+    from .c13 import tables
+    r = ctx.r
+    ce = ctx.ce
+    pm = model(ctx)
+    nodes, edges, sites, ents = graph(ctx)
+    fs, fe, names_s, tab_s, names_e, tab_e = tables(ctx)
+    void = ce.const("constants.py", "voidElements")
+    r.rule("R13.4a", "end tag omitted before a start tag: that start tag's handler closes the element", floor=40)
+    r.rule("R13.4b", "</p> omitted before an end tag: that end tag's handler generates implied end tags", floor=25)
+    r.rule("R13.4c", "omitted start tag is implied by the handler of the next element", floor=8)
+    stopmap = None
+    f_li = ctx.repo.func(PARSER_REL, "InBodyPhase.startTagListItem")
+    stopmap = ce.local_env(f_li.node, f_li.module).get("stopNamesMap")
+    if not isinstance(stopmap, dict):
+        raise AnalysisError("startTagListItem.stopNamesMap is not a constant mapping")
+    implied = None
+    for n in ast.walk(ctx.repo.func("treebuilders/base.py", "TreeBuilder.generateImpliedEndTags").node):
+        if isinstance(n, ast.Compare) and isinstance(n.ops[0], ast.In):
+            v = ce.try_eval(n.comparators[0], ctx.repo.module("treebuilders/base.py"))
+            if isinstance(v, (set, frozenset)) and "dd" in v:
+                implied = v
+    if implied is None:
+        raise AnalysisError("implied-end-tag set not found")
+
+    # ---- (a)
+    for (tag, nty, nname, pv), v in sorted(tab_e.items(), key=repr):
+        if not v or nty != "StartTag" or tag not in CLOSERS or nname is None:
+            continue
+        if nname in void:
+            continue      # void elements reach the filter as EmptyTag tokens (C11), never as StartTag
+        if nname == FRESH:
+            label = "<any other element>"
+        else:
+            label = nname
+        phases, closers = CLOSERS[tag]
+        ok_all, why = True, []
+        for pk in phases:
+            h, how = pm.handler(pm.phases[pk], "StartTag", nname if nname in pm.table_names else FRESH)
+            if h is None:
+                ok_all = False
+                why.append("no handler in %s" % pk)
+                continue
+            ctxname = nname if nname in pm.table_names else FRESH
+            rs = _reach(edges, [(h.fq, ctxname)])
+            hit = {nodes[k][0].qual for k in rs} & closers
+            ok = bool(hit)
+            if ok and tag in ("li", "dd", "dt"):
+                ok = nname in stopmap and tag in stopmap[nname]
+            if ok and tag in ("rt", "rp"):
+                ok = tag in implied and h.qual != "InBodyPhase.startTagOther"
+            if tag == "option" and pk == "inBody":
+                # in body an option is closed by startTagOpt only
+                ok = h.qual == "InBodyPhase.startTagOpt"
+            if not ok:
+                ok_all = False
+                why.append("%s -> %s does not close <%s>" % (pk, h.qual, tag))
+        r.check("R13.4a", ok_all, "(%s,%s)" % (tag, label), fe.where,
+                "the filter omits </%s> before <%s>, but the parser's handler for <%s> does not close the open %s (%s): the "
+                "%s element is nested inside it" % (tag, label, label, tag, "; ".join(why), label),
+                {"omitted": tag, "next": label}, detail={"omitted": tag, "next": label})
+
+    # ---- (b)
+    p_before_end = any(v and tag == "p" and nty == "EndTag" for (tag, nty, nname, pv), v in tab_e.items())
+    if p_before_end:
+        for x, pk in sorted(CAN_CONTAIN_P.items()):
+            h, how = pm.handler(pm.phases[pk], "EndTag", x if x in pm.table_names else FRESH)
+            if h is None:
+                raise AnalysisError("no end-tag handler for %s in %s" % (x, pk))
+            good = _implies_p(ctx, pm, h, x, implied)
+            r.check("R13.4b", good, "p-before-end:%s" % x, fe.where,
+                    "the filter omits </p> before </%s>, but %s does not generate implied end tags: with the p still open the "
+                    "end tag is mis-handled (<%s><p>x</p></%s>z does not round-trip)" % (x, h.qual, x, x),
+                    {"end_tag": x, "handler": h.qual}, detail={"end_tag": x, "handler": h.qual})
+    else:
+        r.ok("R13.4b", "p-before-end:<none>", fe.where)
+
+    # ---- (c)
+    starts = {}
+    for (tag, nty, nname, pv), v in tab_s.items():
+        if v and nname is not None and ((nty == "StartTag" and nname not in void) or (nty == "EmptyTag" and nname in void)):
+            starts.setdefault(tag, set()).add(nname)
+    imply = {
+        "head": ("beforeHead", lambda quals: "BeforeHeadPhase.startTagHead" in quals, {"html", "head"}),
+        "body": ("afterHead", lambda quals: "AfterHeadPhase.anythingElse" in quals, BODY_FIRST_CHILD_NONCONFORMING),
+        "colgroup": ("inTable", lambda quals: "InTablePhase.startTagColgroup" in quals, set()),
+        "tbody": ("inTable", lambda quals: "InTablePhase.startTagRowGroup" in quals, set()),
+    }
+    for tag, (pk, pred, skip) in imply.items():
+        for nname in sorted(starts.get(tag, ())):
+            if nname in skip:
+                continue
+            cn = nname if nname in pm.table_names else FRESH
+            h, how = pm.handler(pm.phases[pk], "StartTag", cn)
+            rs = _reach(edges, [(h.fq, cn)])
+            # only calls made while handling this token count (not what happens after the token is handed back)
+            quals = {nodes[k][0].qual for k in rs}
+            label = "<any other element>" if nname == FRESH else nname
+            r.check("R13.4c", pred(quals), "(%s,%s)" % (tag, label), fs.where,
+                    "the filter omits <%s> before <%s>, but in the %s phase the handler %s does not create the %s element "
+                    "first" % (tag, label, pk, h.qual, tag), {"omitted": tag, "next": label},
+                    detail={"omitted_start": tag, "next": label, "handler": h.qual})
+
+
+def _implies_p(ctx, pm, h, x, implied):
+    """the handler calls generateImpliedEndTags (not excluding p) outside any walk over the stack of open elements"""
+    if "p" not in implied:
+        return False
+    for n in walk_no_nested(h.node):
+        if isinstance(n, ast.Call) and isinstance(n.func, ast.Attribute) and n.func.attr == "generateImpliedEndTags":
+            arg = n.args[0] if n.args else next((k.value for k in n.keywords if k.arg == "exclude"), None)
+            if isinstance(arg, ast.Constant) and arg.value == "p":
+                continue
+            # inside `for node in ...openElements...`?
+            inside = False
+            for anc in ast.walk(h.node):
+                if isinstance(anc, (ast.For, ast.While)) and any(y is n for y in ast.walk(anc)) and \
+                        "openElements" in norm(anc.iter if isinstance(anc, ast.For) else anc.test):
+                    inside = True
+            if not inside:
+                return True
+    # delegation to another handler with the same token
+    for n in walk_no_nested(h.node):
+        if isinstance(n, ast.Call) and isinstance(n.func, ast.Attribute) and n.func.attr == "processEndTag" and n.args \
+                and isinstance(n.args[0], ast.Name):
+            for g, gn in pm.resolve_call(h, n, x):
+                if g is not None and g is not h and _implies_p(ctx, pm, g, x, implied):
+                    return True
+    return False
